@@ -23,7 +23,8 @@ TOKENS = [
     b"6576696c2e636f6d2f6d616c77617265", b"6576696C2E636F6D2F6D616C77617265", b" + ", b";", b",", b"&", b"|",
     b"h\0t\0t\0p\0:\0/\0/\0a\0.\0c\0o\0m\0", b"strlen", b"StrLen", b"GetProcAddress", b"Invoke-Expression", b"IEX", b"iex",
     b"\\\\host.com@SSL\\share\\x.exe", b"\\\\?\\UNC\\1.2.3.4\\c$\\a.dll", b"=", b"\x00", b"MZ", b"for /f %a in ('", b"')",
-    b"VirtualAlloc", b"kernel32.dll", b"wscript.shell", b"HKEY_LOCAL_MACHINE", b"bitcoin", b"Mozilla/5.0",
+    b"VirtualAlloc", b"kernel32.dll", b"padding admin@kernel32.dll.example.com", b" user@sub.evil-site.net/usr/share/file.exe",
+    b"x = http://a.example.com/file.exe?u=admin@b.example.org", b"copy /srv/www/blog-site.example.com today", b"wscript.shell", b"HKEY_LOCAL_MACHINE", b"bitcoin", b"Mozilla/5.0",
 ]
 
 
